@@ -241,7 +241,8 @@ class GroupAddress(BaseAddress):
     def __init__(self, address: GroupAddressableType) -> None:
         """Initialize GroupAddress class."""
         if isinstance(address, int):
-            self.raw = address
+            # plain int: free notation renders `raw` itself, GroupAddress(True) would print "True"
+            self.raw = int(address)
         elif isinstance(address, GroupAddress):
             self.raw = address.raw
         elif isinstance(address, str):
